@@ -9,7 +9,7 @@
 (* forest follows with LexDoc.Survivors, and (as a DIVERGENCE only) the    *)
 (* dumped try-order with LexOrder.SortTerminals.                           *)
 (***************************************************************************)
-EXTENDS LexOrder, TLC, Json, IOUtils
+EXTENDS LexOrder, LRRuntime, TLC, Json, IOUtils
 
 Dumps  == ndJsonDeserialize(IOEnv.DUMPS)
 Traces == ndJsonDeserialize(IOEnv.TRACES)
@@ -64,8 +64,36 @@ Verdict(r) ==
       nmatch |-> Cardinality(Matching(E, m)), nsurv |-> Cardinality(want),
       sort_div |-> sorted # SortTerminals(Eall, T, f.ms)]
 
+\* Context cases:  S: P0 A L0 | P1 A L1 | ...;  A: X;  input "<Pi> <X> <window>".  The state
+\* "A: X ." is shared by all contexts (its lookaheads are all the Lj), the state after the
+\* reduction expects Li only: the token has to be chosen among the terminals expected in the
+\* state the parser is in AFTER the reduction.  That state comes from LRRuntime on the dumped
+\* table (shift Pi, shift X, reduce on Li), the choice from LexDoc.Survivors.
+CtxVerdict(r) ==
+  LET d  == Dumps[r.g]
+      T  == d.t
+      f  == [ms |-> d.cfg.ms, lm |-> d.cfg.lm, go |-> d.cfg.go]
+      tk(t) == [t |-> t, s |-> 0, e |-> 0]
+      c1 == ShiftStep(T, InitCfg(0, 0), tk(r.meta.path[1]))
+      c2 == ShiftStep(T, c1, tk(r.meta.path[2]))
+      c3 == Step(T, c2, tk(r.meta.li))
+      st == TopSt(c3)
+      E  == SeqOf(TExpected(T, st) \ {T.stop})
+      m  == [t \in Terms(T) |->
+               IF \E j \in 1 .. Len(r.lat) : r.lat[j][1] = t
+               THEN r.lat[CHOOSE j \in 1 .. Len(r.lat) : r.lat[j][1] = t][2] ELSE -1]
+      want == Survivors(E, m, T, f)
+      lv == IF r.res.k = "ok" THEN Leaves(r.tree) ELSE <<>>
+      got == IF Len(lv) >= 3 THEN {lv[3].t} ELSE {}
+      bad == (IF r.res.k \in {"ok", "err"} THEN {} ELSE {<<"abnormal_result", r.res.k>>})
+             \cup (IF got = want THEN {} ELSE {<<"selected_tokens_differ_after_reduction", got, want>>})
+  IN [id |-> r.id, iid |-> r.iid, algo |-> r.algo, bad |-> bad, c07 |-> {},
+      nmatch |-> Cardinality(Matching(E, m)), nsurv |-> Cardinality(want), sort_div |-> FALSE]
+
+IsCtx(r) == "ctx" \in DOMAIN r.meta
 Init == i = 0
 Next == /\ i < Len(Traces)
         /\ i' = i + 1
-        /\ PrintT(<<"VERDICT", ToJson(Verdict(Traces[i + 1]))>>)
+        /\ PrintT(<<"VERDICT", ToJson(IF IsCtx(Traces[i + 1]) THEN CtxVerdict(Traces[i + 1])
+                                       ELSE Verdict(Traces[i + 1]))>>)
 =============================================================================
